@@ -33,37 +33,37 @@ type Term struct {
 
 // Operators.
 const (
-	OpParam   = "param"   // Name = "<func>#<idx>:<name>"
-	OpConst   = "const"   // Name = literal
-	OpGlobal  = "global"  // Name = qualified name (the variable's value)
+	OpParam   = "param"  // Name = "<func>#<idx>:<name>"
+	OpConst   = "const"  // Name = literal
+	OpGlobal  = "global" // Name = qualified name (the variable's value)
 	OpAddrG   = "addrglobal"
-	OpField   = "field"   // Args[0].Name
-	OpCall    = "call"    // Name = callee; Args = receiver+args
-	OpInvoke  = "invoke"  // Name = method#site; Args = receiver+args
-	OpRes     = "res"     // Name = index; Args[0] = call
-	OpSlice   = "slice"   // Args = x, lo, hi (missing => const "")
-	OpIndex   = "index"   // Args = x, i
-	OpBin     = "bin"     // Name = operator
-	OpUn      = "un"      // Name = operator
-	OpConv    = "conv"    // Name = target type
-	OpAssert  = "assert"  // Name = target type
-	OpPhi     = "phi"     // unordered alternatives of a value
-	OpIte     = "ite"     // Args = cond, then, else
-	OpStruct  = "struct"  // Name = type; Args = field terms (OpFieldInit)
-	OpFInit   = "finit"   // Name = field name; Args[0] = value
-	OpNew     = "new"     // Name = type#site; pointer to fresh object; Args = finit...
-	OpMake    = "make"    // Name = type#site; Args = len, cap
-	OpConcat  = "concat"  // append chains, flattened
+	OpField   = "field"  // Args[0].Name
+	OpCall    = "call"   // Name = callee; Args = receiver+args
+	OpInvoke  = "invoke" // Name = method#site; Args = receiver+args
+	OpRes     = "res"    // Name = index; Args[0] = call
+	OpSlice   = "slice"  // Args = x, lo, hi (missing => const "")
+	OpIndex   = "index"  // Args = x, i
+	OpBin     = "bin"    // Name = operator
+	OpUn      = "un"     // Name = operator
+	OpConv    = "conv"   // Name = target type
+	OpAssert  = "assert" // Name = target type
+	OpPhi     = "phi"    // unordered alternatives of a value
+	OpIte     = "ite"    // Args = cond, then, else
+	OpStruct  = "struct" // Name = type; Args = field terms (OpFieldInit)
+	OpFInit   = "finit"  // Name = field name; Args[0] = value
+	OpNew     = "new"    // Name = type#site; pointer to fresh object; Args = finit...
+	OpMake    = "make"   // Name = type#site; Args = len, cap
+	OpConcat  = "concat" // append chains, flattened
 	OpLen     = "len"
 	OpCap     = "cap"
-	OpIter    = "iter"    // Name = loop id; Args = init, step
-	OpAddr    = "addr"    // address of Args[0] (a field/index place)
+	OpIter    = "iter" // Name = loop id; Args = init, step
+	OpAddr    = "addr" // address of Args[0] (a field/index place)
 	OpDeref   = "deref"
-	OpLookup  = "lookup"  // map/string lookup; Args = m, k
-	OpFunc    = "func"    // function value
+	OpLookup  = "lookup" // map/string lookup; Args = m, k
+	OpFunc    = "func"   // function value
 	OpClosure = "closure"
-	OpArray   = "array"   // array/slice literal with known elements
-	OpCopyOf  = "copyof"  // fresh copy of Args[0] (clone-shaped helper)
+	OpArray   = "array"    // array/slice literal with known elements
+	OpCopyOf  = "copyof"   // fresh copy of Args[0] (clone-shaped helper)
 	OpElemOp  = "elemwise" // Name = operator; Args = a, b : fresh slice of a[i] op b[i]
 	OpSelect  = "select"
 	OpUnknown = "unknown"
